@@ -59,6 +59,9 @@ func checkC18Enrich(t *testing.T, c *enrichCase, rec *Recorder) []Diff {
 				return nil, ctx.Err()
 			}
 		}
+		if s.Err && s.Timeout {
+			return nil, &net.DNSError{Err: "i/o timeout", Name: addr, IsTimeout: true}
+		}
 		if s.Err {
 			return nil, errors.New("scripted failure for " + addr)
 		}
@@ -125,7 +128,7 @@ func checkC18Enrich(t *testing.T, c *enrichCase, rec *Recorder) []Diff {
 }
 
 func TestC18Enrich(t *testing.T) {
-	rec := NewRecorder("C18", "C18Enrich", "rapid: hop/destination address multisets (duplicates, unanswered hops, 4-byte and IPv4-mapped 16-byte forms of one address, IPv6) x scripted resolver per address {names, empty list, error, slow (virtual delays => completion order)}; oracle: every reverse_dns list equals what the resolver returned for that same address, failures leave it empty and nothing else in the document changes; non-trivial = >= 2 distinct addresses with different outcomes and a duplicate")
+	rec := NewRecorder("C18", "C18Enrich", "rapid: hop/destination address multisets (duplicates, unanswered hops, 4-byte and IPv4-mapped 16-byte forms of one address, IPv6) x scripted resolver per address {names, empty list, error, resolver timeout error, slow (virtual delays => completion order), slower than the library's 5 s lookup deadline}; oracle: every reverse_dns list equals what the resolver returned for that same address, failures leave it empty and nothing else in the document changes; non-trivial = >= 2 distinct addresses with different outcomes and a duplicate")
 	RunProp(t, rec, func(rt *rapid.T) *enrichCase {
 		c := &enrichCase{DNS: map[string]DNSScript{}}
 		nr := rapid.IntRange(1, 3).Draw(rt, "n_runs")
@@ -143,14 +146,17 @@ func TestC18Enrich(t *testing.T) {
 			if _, ok := c.DNS[k]; ok {
 				continue
 			}
-			s := DNSScript{DelayMs: oneOf(rt, "dns_"+k+"_delay", 0, 0, 5, 40, 300)}
-			switch oneOf(rt, "dns_"+k+"_kind", "names", "names", "two", "empty", "error") {
+			// 6000 ms is beyond the library's own 5 s lookup deadline: that lookup ends as a timeout
+			s := DNSScript{DelayMs: oneOf(rt, "dns_"+k+"_delay", 0, 0, 5, 40, 300, 6000)}
+			switch oneOf(rt, "dns_"+k+"_kind", "names", "names", "two", "empty", "error", "timeout-error") {
 			case "names":
 				s.Names = []string{"h-" + k + ".example."}
 			case "two":
 				s.Names = []string{"a-" + k + ".example.", "b-" + k + ".example."}
 			case "empty":
 				s.Names = []string{}
+			case "timeout-error":
+				s.Err, s.Timeout = true, true
 			default:
 				s.Err = true
 			}
